@@ -20,13 +20,19 @@ TECHNIQUE = (
     "'identified but could not be activated' list of the result log against the ECU-side refusals (NRC other than 0x12/0x7E, never "
     "entered).  A share of the scans is DB-backed on a real event loop: the scanner's own _db_insert_run_meta()/_db_finish_run_meta() "
     "open a real DBHandler on a sqlite file in the scratch directory, one or two scans of the same target go into the same file, and "
-    "the session_transition rows of each scan are read back with the stdlib sqlite3 module and held against the same reference"
+    "the session_transition rows of each scan are read back with the stdlib sqlite3 module and held against the same reference.  "
+    "Two ECU/OEM behaviours are part of the model: (1) transitions the ECU refuses with conditionsNotCorrect until an arming request "
+    "preceded them, scanned through a harness OEM subclass of gallia's ECU whose set_session_pre() hook sends that request (the "
+    "reference counts such a transition as available iff --with-hooks is on, as refused = identified-only otherwise); (2) ECUs that "
+    "carry out the ECUReset of --reset but never answer it (always / outside the default session / with probability 0.5), so that "
+    "the scanner's timeout -> reconnect path is taken (max_retries 0, 1, 3)"
 )
 LEVEL_TEXT = (
     "Exploration: seeded random session graphs (3..14 session ids out of 1..0x7F plus planted chains of length depth+2, cycles, "
     "unreachable components, sessions behind non-default sessions, transitions refused with another NRC), ISO-conformant (every "
     "session returns to the default session) and non-conformant, x depth 1..5 x skip lists in range grammar x thorough x reset x "
-    "with-hooks x direct main()/full run().  Held = on every generated scan the result equals the reference reachability set, every "
+    "with-hooks (default ECU class, or the harness OEM class with hook-armed transitions) x answered/unanswered resets x direct "
+    "main()/full run().  Held = on every generated scan the result equals the reference reachability set, every "
     "reported stack is a real path, no skipped session was requested and the scan ended within its request budget.  DB-backed "
     "histories: one scan, or a scan followed by a second scan of the same target into the same database with a smaller depth, a skip "
     "list cutting stored paths, a changed graph or thorough flipped; the second scan is judged by ITS depth / skip list / graph, its "
@@ -35,12 +41,12 @@ LEVEL_TEXT = (
     "stored steps."
 )
 LEVEL_NOTE = (
-    "Trusted: GraphECU and InProcessTransport in vf/ecu_models.py (about 100 lines on top of gallia's UDSServer base), the level-wise "
+    "Trusted: GraphECU, InProcessTransport and the HookECU client subclass in vf/ecu_models.py (about 150 lines on top of gallia's UDSServer / ECU base classes), the level-wise "
     "reachability in this file, vf/vtime.py.  Explicit abort (SystemExit) is accepted only where DESIGN 3a allows it."
 )
 RULE = (
-    "cases = (graph edges, refused transitions, depth, skip list, thorough, reset level, ECU offers reset, with_hooks, sleep, run mode, "
-    "DB-backed or not; each scan of a two-scan history is one case); "
+    "cases = (graph edges, refused transitions, hook-armed transitions, depth, skip list, thorough, reset level, ECU offers reset, "
+    "unanswered-reset rule and max_retries, with_hooks, sleep, run mode, DB-backed or not; each scan of a two-scan history is one case); "
     "graphs are seeded random digraphs with planted features; non-trivial = some session lies at distance >= 2 from the default "
     "session or a planted feature (cycle off the default session, over-long chain, unreachable component, skip that cuts a path, "
     "refused transition) is present; distinct = distinct case tuples; distinct_traces = distinct ECU-side request/reply logs"
@@ -53,6 +59,12 @@ ASSUMPTIONS = [
     "has no transition back to the default session and either no effective reset is in use or the default session cannot be re-entered from itself; "
     "everywhere else the exact set is required",
     "the ECU model always answers DiagnosticSessionControl (no silent refusals)",
+    "a hook-armed transition (refused with 0x22 until the OEM hook's arming request directly preceded the session change) is a transition "
+    "of the graph iff the scan runs with --with-hooks and the OEM class in use has that hook; without --with-hooks it is a refused "
+    "transition (identified, not entered).  This is what sessions.py documents for --with-hooks: first without hooks, on "
+    "conditionsNotCorrect once more with hooks",
+    "an ECUReset that is carried out but not answered leaves the ECU in the default session; the expected result of the scan is the same "
+    "as with answered resets (the reset option must not change what is reachable)",
     "sessions.py documents that a session whose change was refused with an NRC other than 0x12/0x7E and that was never entered is logged as "
     "'identified but could not be activated' AND stored in session_transition with the stack it was refused from (the table has no column "
     "telling such rows from reachable ones); the oracle accepts exactly those rows/list entries, derived from the ECU-side log, and nothing "
@@ -86,13 +98,30 @@ def required_reach(tier: str) -> dict[str, int]:
          "db.exists-elsewhere-not-entered": 40, "db.identified-only-rows": 5, "db.full-run": 10,
          "db.second-scans": 30, "db.second-scan.nested-rows-stored": 20, "db.second-scan.stored-session-now-out-of-reach": 15,
          "db.second-scan.smaller-depth": 10, "db.second-scan.skip": 10, "db.second-scan.skip-on-stored-path": 8,
-         "db.second-scan.graph-variant": 3}
+         "db.second-scan.graph-variant": 3,
+         # transitions armed by the OEM hook (harness ECU subclass with set_session_pre) with and without --with-hooks
+         "hooks.oem-class.with-hooks": 40, "hooks.oem-class.without-hooks": 20,
+         "hooks.armed-transition.refused-then-entered-through-hook": 30, "hooks.armed-transition.re-entered-during-stack-recovery": 15,
+         "hooks.armed-transition.refused-without-hooks": 15, "hooks.session-reachable-only-through-armed-transition": 15,
+         # ECUs that carry out the ECUReset of --reset without answering it (timeout -> reconnect path of the scanner)
+         "reset.silent.scans": 20, "reset.silent.every-attempt-unanswered": 15, "reset.silent.transport-reconnected": 15,
+         "reset.silent.unanswered-after-refused-probe-on-stack": 10, "reset.silent.answered-on-retry": 3}
     return r
 
 
 # ---- reference -----------------------------------------------------------------------------------------------------
+def eff_guarded(case: dict[str, Any]) -> dict[tuple[int, int], int]:
+    """transitions the ECU refuses in THIS scan: the guarded ones, and the hook-armed ones (answered conditionsNotCorrect until
+    the OEM hook has run) when the scan does not use hooks"""
+    g = {(a, b): c for a, b, c in case["guarded"]}
+    if not case["with_hooks"]:
+        for a, b in case.get("hooked", ()):
+            g.setdefault((a, b), 0x22)
+    return g
+
+
 def real_adj(case: dict[str, Any]) -> dict[int, set[int]]:
-    g = {(a, b) for a, b, _ in case["guarded"]}
+    g = set(eff_guarded(case))
     adj: dict[int, set[int]] = {}
     for k, v in case["edges"].items():
         adj[int(k)] = {int(x) for x in v if (int(k), int(x)) not in g}
@@ -253,13 +282,31 @@ def gen_case(rng: Any, tier: str) -> dict[str, Any]:
         "sleep": rng.choice([0, 0, 0, 2]),
         "full": rng.random() < 0.25,
         "feats": feats,
+        "hooked": [],
+        "silent_reset": None,
+        "max_retries": 3,
     }
+    if rng.random() < 0.3:
+        # transitions that need the OEM hook: refused with conditionsNotCorrect until set_session_pre() has armed them
+        g0 = {(a, b) for a, b, _ in guarded}
+        adj0 = {a: {b for b in bs if (a, b) not in g0} for a, bs in edges.items()}
+        near = set(level_reach(adj0, set(skip), None)) | {1}
+        pairs = [(a, b) for a in sorted(near) for b in sorted(adj0.get(a, ())) if b != 1 and b not in skip]
+        if pairs:
+            feats.append("hooked")
+            case["hooked"] = [list(e) for e in rng.sample(pairs, min(len(pairs), rng.randint(1, 3)))]
+            case["with_hooks"] = rng.random() < 0.65
+    if case["reset"] and case["ecu_reset"] and rng.random() < 0.5:
+        # an ECU that carries out the reset but does not answer it (always / only outside the default session / now and then)
+        case["silent_reset"] = {"where": rng.choice(["always", "always", "non-default"]), "p": rng.choice([1.0, 1.0, 0.5]),
+                                "seed": rng.randrange(1 << 30)}
+        case["max_retries"] = rng.choice([0, 0, 1, 3])
     # keep the run affordable: a thorough scan searches every walk, a reset costs ~depth+3 requests per probe
     adj = real_adj(case)
     cap = MAX_REQ[tier]
     while True:
         stacks = count_stacks(adj, set(skip), case["depth"], 10_000) if case["thorough"] else min(len(edges), 1 + len(level_reach(adj, set(skip), case["depth"] - 1) if case["depth"] > 1 else {}))
-        per_probe = (case["depth"] + 4) if case["reset"] else 1.3
+        per_probe = (case["depth"] + 4 + (case["max_retries"] + 1 if case["silent_reset"] else 0)) if case["reset"] else 1.3
         if stacks * 127 * per_probe <= cap:
             break
         if case["thorough"] and case["depth"] > 2 and rng.random() < 0.7:
@@ -268,6 +315,7 @@ def gen_case(rng: Any, tier: str) -> dict[str, Any]:
             case["thorough"] = False
         elif case["reset"]:
             case["reset"] = None
+            case["silent_reset"] = None
         else:
             break
     return case
@@ -315,37 +363,52 @@ async def scan(case: dict[str, Any], budget: int, db: Any = None) -> dict[str, A
     from gallia.commands.scan.uds.sessions import SessionsScanner
     from vf import ecu_models as em
 
-    srv = em.GraphECU({int(k): v for k, v in case["edges"].items()}, {(a, b): c for a, b, c in case["guarded"]},
-                      with_reset=case["ecu_reset"])
+    srv = model(case)
     tr = em.InProcessTransport(srv, budget=budget)
     cap = em.fresh_capture()
     opts: dict[str, Any] = {"depth": case["depth"], "skip": list(case["skip_expr"]), "thorough": case["thorough"],
-                            "reset": case["reset"], "with_hooks": case["with_hooks"], "sleep": case["sleep"]}
+                            "reset": case["reset"], "with_hooks": case["with_hooks"], "sleep": case["sleep"],
+                            "max_retries": case["max_retries"]}
     if db is not None:
         opts.update({"db": db, "timeout": DB_TIMEOUT})
     sc = em.make_scanner(SessionsScanner, **opts)
-    out = await em.run_scanner(sc, tr, case["full"], db=db is not None)
+    # ECUs with hook-armed transitions are scanned through the harness OEM class (its set_session_pre() arms the transition)
+    out = await em.run_scanner(sc, tr, case["full"], db=db is not None, ecu_cls=em.hook_ecu_class() if case["hooked"] else None)
     out.update({"result": list(sc.result), "log": tr.log, "records": list(cap.results), "problems": list(cap.problems),
-                "skip_cfg": list(sc.config.skip)})
+                "skip_cfg": list(sc.config.skip), "reconnects": tr.reconnects, "silent_resets": srv.n_silent_resets})
     return out
 
 
-async def replay_path(case: dict[str, Any], path: list[int]) -> tuple[bool, int]:
-    """send the session changes to a fresh model; (every change answered positively, final ECU session)"""
+def model(case: dict[str, Any], fresh: bool = False) -> Any:
+    """the ECU model of a case; fresh=True: the same ECU for replaying a path (resets are not part of a path)"""
     from vf import ecu_models as em
 
-    srv = em.GraphECU({int(k): v for k, v in case["edges"].items()}, {(a, b): c for a, b, c in case["guarded"]},
-                      with_reset=case["ecu_reset"])
+    return em.GraphECU({int(k): v for k, v in case["edges"].items()}, {(a, b): c for a, b, c in case["guarded"]},
+                       with_reset=case["ecu_reset"], silent_reset=None if fresh else case["silent_reset"], hooked=case["hooked"])
+
+
+async def replay_path(case: dict[str, Any], path: list[int]) -> tuple[bool, int]:
+    """send the session changes to a fresh model; (every change answered positively, final ECU session).  With hooks in use a
+    change answered conditionsNotCorrect is repeated after the arming request of the OEM hook (what --with-hooks stands for)."""
+    from vf import ecu_models as em
+
+    srv = model(case, fresh=True)
     tr = em.InProcessTransport(srv)
     ok = True
     for s in path:
         await tr.write(bytes([0x10, s]))
         reply = tr.log[-1][2]
+        if reply == bytes([0x7F, 0x10, 0x22]) and case["with_hooks"] and case["hooked"]:
+            await tr.write(em.arming_request(s))
+            await tr.write(bytes([0x10, s]))
+            reply = tr.log[-1][2]
         ok = ok and reply is not None and reply[:2] == bytes([0x50, s])
     return ok, srv.state.session
 
 
-CASE_KEYS = ("edges", "guarded", "depth", "skip", "skip_expr", "thorough", "reset", "ecu_reset", "with_hooks", "sleep", "full")
+CASE_KEYS = ("edges", "guarded", "depth", "skip", "skip_expr", "thorough", "reset", "ecu_reset", "with_hooks", "sleep", "full",
+             "hooked", "silent_reset", "max_retries")
+CASE_DEFAULTS: dict[str, Any] = {"hooked": [], "silent_reset": None, "max_retries": 3}  # witnesses written before these existed
 
 
 def walk_ok(adj: dict[int, set[int]], path: list[Any]) -> bool:
@@ -386,7 +449,10 @@ def prepare(ctx: Any, case: dict[str, Any], db: bool = False) -> dict[str, Any]:
     conformant = not stuck
     abort_allowed = (not conformant) and ((not eff_reset) or 1 not in adj.get(1, ()))
     stacks = count_stacks(adj, skip, depth, 10**7) if case["thorough"] else len(all_sessions) + 1
-    budget = int(stacks * 127 * (depth + 8) * (2 if case["with_hooks"] else 1) * 2 + 2000)
+    silent = case["silent_reset"] if eff_reset else None
+    # per probe: reset (+ its unanswered repetitions, each with a tester present of the background worker), ping, the stack, the probe
+    per_probe = depth + 8 + (2 * (case["max_retries"] + 1) + 2 if silent else 0)
+    budget = int(stacks * 127 * per_probe * (2 if case["with_hooks"] else 1) * 2 + 2000)
 
     feat_far = any(d >= 2 for d in unbounded.values())
     within = {s for s, d in want.items() if d < depth} | {1}  # sessions the scan starts probing from
@@ -394,9 +460,10 @@ def prepare(ctx: Any, case: dict[str, Any], db: bool = False) -> dict[str, Any]:
     feat_long = any(d > depth for d in unbounded.values())
     feat_unreach = bool(all_sessions - set(unbounded_noskip) - {1})
     cuts = set(level_reach(adj, set(), depth)) != set(want)
-    nontrivial = feat_far or feat_cycle or feat_long or feat_unreach or cuts or bool(case["guarded"])
+    nontrivial = feat_far or feat_cycle or feat_long or feat_unreach or cuts or bool(case["guarded"]) or bool(case["hooked"])
     ident = (sorted(case["edges"].items()), case["guarded"], depth, case["skip"], case["thorough"], case["reset"], case["ecu_reset"],
-             case["with_hooks"], case["sleep"], case["full"]) + (("db",) if db else ())
+             case["with_hooks"], case["sleep"], case["full"], case["hooked"],
+             sorted(silent.items()) if silent else None, case["max_retries"] if silent else None) + (("db",) if db else ())
     ctx.case(ident, nontrivial=nontrivial)
     ctx.reach("graph.conformant" if conformant else "graph.nonconformant")
     for flag, name in ((case["thorough"], "opt.thorough"), (case["reset"], "opt.reset"), (case["full"], "opt.full-run"),
@@ -405,11 +472,19 @@ def prepare(ctx: Any, case: dict[str, Any], db: bool = False) -> dict[str, Any]:
             ctx.reach(name)
     if any(b in skip for vs in adj.values() for b in vs):
         ctx.reach("skip.on-real-edge")
+    if case["hooked"]:
+        ctx.reach("hooks.oem-class.with-hooks" if case["with_hooks"] else "hooks.oem-class.without-hooks")
+        hk = {(a, b) for a, b in case["hooked"]}
+        if case["with_hooks"] and set(want) - set(level_reach({a: {b for b in bs if (a, b) not in hk} for a, bs in adj.items()}, skip, depth)):
+            ctx.reach("hooks.session-reachable-only-through-armed-transition")
+    if silent:
+        ctx.reach("reset.silent.scans")
+        ctx.reach(f"reset.silent.scans/{silent['where']}/p={silent['p']}/max-retries={case['max_retries']}")
 
     w: dict[str, Any] = {k: case[k] for k in CASE_KEYS}
     w["expected"] = sorted(want)
     return {"depth": depth, "skip": skip, "adj": adj, "want": want, "unbounded": unbounded, "all_sessions": all_sessions,
-            "eff_reset": eff_reset, "stuck": stuck, "conformant": conformant, "abort_allowed": abort_allowed, "budget": budget,
+            "eff_reset": eff_reset, "silent": silent, "stuck": stuck, "conformant": conformant, "abort_allowed": abort_allowed, "budget": budget,
             "feat_cycle": feat_cycle, "feat_long": feat_long, "feat_unreach": feat_unreach,
             "mode": "thorough" if case["thorough"] else "default", "w": w}
 
@@ -422,6 +497,78 @@ def check_case(ctx: Any, case: dict[str, Any]) -> None:
         ctx.violation(f"sessions/no-termination/blocks-forever/{o['mode']}", "the scan can never complete (nothing scheduled, nothing readable)", o["w"])
         return
     judge(ctx, case, o, out)
+
+
+def reach_hooks(ctx: Any, case: dict[str, Any], log: list[Any]) -> None:
+    """ECU-side evidence that the hook-armed transitions were exercised (no verdicts here)"""
+    hooked = {(a, b) for a, b in case["hooked"]}
+    if not hooked:
+        return
+    taken: dict[tuple[int, int], int] = {}
+    refused = False
+    for i, (before, q, r, _) in enumerate(log):
+        if len(q) != 2 or q[0] != 0x10 or (before, q[1] & 0x7F) not in hooked or r is None:
+            continue
+        if r[0] == 0x7F:
+            refused = refused or r[2] == 0x22
+        elif i >= 2 and log[i - 1][1][:1] == b"\x2e" and log[i - 2][1] == q and log[i - 2][2] == bytes([0x7F, 0x10, 0x22]):
+            taken[(before, q[1] & 0x7F)] = taken.get((before, q[1] & 0x7F), 0) + 1  # refused, armed by the hook, repeated, entered
+    if case["with_hooks"]:
+        if taken:
+            ctx.reach("hooks.armed-transition.refused-then-entered-through-hook")
+        if any(n >= 2 for n in taken.values()):
+            ctx.reach("hooks.armed-transition.re-entered-during-stack-recovery")
+    elif refused:
+        ctx.reach("hooks.armed-transition.refused-without-hooks")
+
+
+def reach_silent_resets(ctx: Any, log: list[Any], reconnects: int) -> None:
+    """ECU-side evidence for the 'reset carried out but never answered' path: between two session change requests every
+    ECUReset went unanswered (so the scanner has to reconnect instead of waiting for the ECU); the delicate situation is the
+    one right after a refused probe made from a non-default session (nothing else tells the scanner to re-enter its stack)"""
+    prev: Any = None
+    run: list[Any] = []
+    seen: set[str] = set()
+    for e in log:
+        q = e[1]
+        if len(q) >= 2 and q[0] == 0x11:
+            run.append(e)
+        elif len(q) == 2 and q[0] == 0x10:
+            if run and all(x[2] is None for x in run):
+                seen.add("reset.silent.every-attempt-unanswered")
+                if reconnects:
+                    seen.add("reset.silent.transport-reconnected")
+                if prev is not None and prev[2] is not None and prev[2][0] == 0x7F and prev[0] != 1 and run[0][0] != 1:
+                    seen.add("reset.silent.unanswered-after-refused-probe-on-stack")
+            elif run and run[0][2] is None:
+                seen.add("reset.silent.answered-on-retry")
+            prev, run = e, []
+    for name in sorted(seen):  # once per scan
+        ctx.reach(name)
+
+
+def mechanism(case: dict[str, Any], o: dict[str, Any], log: list[Any]) -> str:
+    """ECU-side trace of the two places where the scanner has to re-enter its stack although no probe 'succeeded' in its own
+    books; used only to NAME the mechanism in the key of a verdict reached otherwise (wrong set / stack / abort).
+    The unchanged scanner re-enters every stack from '10 01' on, so after such an event the next session change request is '10 01'."""
+    dsc = [i for i, e in enumerate(log) if len(e[1]) == 2 and e[1][0] == 0x10]
+    nxt = {i: j for i, j in zip(dsc, dsc[1:])}
+    hooked = {(a, b) for a, b in case["hooked"]}
+    out = ""
+    if o["silent"]:
+        for i, j in nxt.items():
+            run = [e for e in log[i + 1 : j] if len(e[1]) >= 2 and e[1][0] == 0x11]
+            if run and all(e[2] is None for e in run) and run[0][0] != 1 and log[j][1] != b"\x10\x01":
+                out += "/unanswered-reset-then-stack-not-re-entered"
+                break
+    if hooked and case["with_hooks"]:
+        for i in dsc:
+            before, q, r, after = log[i]
+            if (before, q[1] & 0x7F) in hooked and r is not None and r[0] == 0x50 and after != before and i in nxt and log[nxt[i]][1] != b"\x10\x01" \
+                    and log[i - 1][1][:1] == b"\x2e":
+                out += "/entered-through-hook-then-stack-not-re-entered"
+                break
+    return out
 
 
 def judge(ctx: Any, case: dict[str, Any], o: dict[str, Any], out: dict[str, Any], rows: list[tuple[int, Any]] | None = None) -> bool:
@@ -448,6 +595,11 @@ def judge(ctx: Any, case: dict[str, Any], o: dict[str, Any], out: dict[str, Any]
         ctx.violation("sessions/skip-requested", "a session listed in --skip was requested from the ECU", {**w, "requested_skipped": asked})
     if any(len(q) >= 2 and q[0] == 0x10 and (a, q[1] & 0x7F) in {(x, y) for x, y, _ in case["guarded"]} for a, q, _, _ in log):
         ctx.reach("guarded.probed")
+    reach_hooks(ctx, case, log)
+    if o["silent"]:
+        reach_silent_resets(ctx, log, out.get("reconnects", 0))
+
+    mx = mechanism(case, o, log)
 
     # (c) termination
     if isinstance(out["error"], em.BudgetExceeded):
@@ -464,7 +616,7 @@ def judge(ctx: Any, case: dict[str, Any], o: dict[str, Any], out: dict[str, Any]
             ctx.reach("outcome.abort-allowed/" + ("default-not-reenterable" if 1 not in adj.get(1, ()) else "no-way-back"))
             return False
         why = "conformant-graph" if conformant else ("with-reset" if eff_reset else "no-refused-change")
-        ctx.violation(f"sessions/aborts/{why}/exit-{out['exit']}", "the scan gives up although every session it enters can return to the default session (or a reset is in use)", {**w, "stuck": stuck})
+        ctx.violation(f"sessions/aborts/{why}/exit-{out['exit']}{mx}", "the scan gives up although every session it enters can return to the default session (or a reset is in use)", {**w, "stuck": stuck})
         return False
 
     # (a) the reported set
@@ -474,7 +626,7 @@ def judge(ctx: Any, case: dict[str, Any], o: dict[str, Any], out: dict[str, Any]
     got = set(res)
     for s in sorted(set(want) - got):
         kind = "default-session-reentry" if s == 1 else ("at-depth-limit" if want[s] == depth else "below-depth-limit")
-        ctx.violation(f"sessions/missing-reachable-session/{kind}/{mode}", f"a session reachable by {want[s]} change(s) (depth {depth}) is not reported", {**w, "session": s, "distance": want[s]})
+        ctx.violation(f"sessions/missing-reachable-session/{kind}/{mode}{mx}", f"a session reachable by {want[s]} change(s) (depth {depth}) is not reported", {**w, "session": s, "distance": want[s]})
     entered = {r[1] for _, q, r, _ in log if r is not None and len(r) >= 2 and r[0] == 0x50}
     for s in sorted(got - set(want)):
         if s in skip:
@@ -485,7 +637,7 @@ def judge(ctx: Any, case: dict[str, Any], o: dict[str, Any], out: dict[str, Any]
             kind = "beyond-depth"
         else:
             kind = "reports-unreachable"
-        key = f"sessions/reports-unreachable/{kind}/{mode}" if kind != "reports-unreachable" else f"sessions/reports-unreachable/{mode}"
+        key = (f"sessions/reports-unreachable/{kind}/{mode}" if kind != "reports-unreachable" else f"sessions/reports-unreachable/{mode}") + mx
         ctx.violation(key, "a session that cannot be entered within the depth limit is reported", {**w, "session": s, "distance": unbounded.get(s)})
     if got == set(want):
         ctx.reach("outcome.exact")
@@ -530,7 +682,7 @@ def judge(ctx: Any, case: dict[str, Any], o: dict[str, Any], out: dict[str, Any]
                 if not ok or final != s:
                     real = False
             if not real:
-                ctx.violation(f"sessions/stack-not-a-path/{mode}", "a reported stack, replayed on a fresh ECU, is refused or ends in another session", {**w, "session": s, "stack": st})
+                ctx.violation(f"sessions/stack-not-a-path/{mode}{mx}", "a reported stack, replayed on a fresh ECU, is refused or ends in another session", {**w, "session": s, "stack": st})
                 break
             if len(st) > depth:
                 ctx.violation(f"sessions/stack-longer-than-depth/{mode}", "a reported stack needs more session changes than the depth limit", {**w, "session": s, "stack": st})
@@ -559,7 +711,7 @@ def judge(ctx: Any, case: dict[str, Any], o: dict[str, Any], out: dict[str, Any]
             kind = "only-answered-nrc-12"
         else:
             kind = "never-requested"
-        ctx.violation(f"sessions/identified-list/session-not-offered/{kind}", "a session is logged as 'identified but could not be activated' although the ECU answered its "
+        ctx.violation(f"sessions/identified-list/session-not-offered/{kind}{mx if kind == 'activated-session' else ''}", "a session is logged as 'identified but could not be activated' although the ECU answered its "
                       "DiagnosticSessionControl requests only with sub-function-not-supported (here / in the active session) or entered it", {**w, "session": s, "stacks": neg[s][:4]})
     for s in sorted(ident_only - set(neg)):
         ctx.violation("sessions/identified-list/refused-session-not-listed", "the ECU refused a session change with an NRC other than 0x12/0x7E and never entered the session, "
@@ -646,6 +798,7 @@ def db_cost(case: dict[str, Any]) -> int:
 def fit_db(case: dict[str, Any], tier: str) -> dict[str, Any]:
     """DB-backed scans run in real time: no reset (wait_for_ecu sleeps 0.5 s per probe), no sleep option, bounded size"""
     case["reset"] = None
+    case["silent_reset"] = None
     case["sleep"] = 0
     while db_cost(case) > DB_MAX_REQ[tier]:
         if case["thorough"]:
@@ -710,10 +863,11 @@ def gen_history(rng: Any, tier: str) -> dict[str, Any]:
                     edges[a].add(b)
             c2["edges"] = {str(k): sorted(v) for k, v in sorted(edges.items())}
             c2["guarded"] = [g for g in c1["guarded"] if g[1] in edges.get(g[0], ())]
+            c2["hooked"] = [h for h in c1["hooked"] if h[1] in edges.get(h[0], ())]
             kinds.append("graph-variant")
         if rng.random() < 0.3:
             c2["thorough"] = not c1["thorough"]
-        c2["with_hooks"] = rng.random() < 0.3
+        c2["with_hooks"] = rng.random() < (0.6 if c1["hooked"] else 0.3)
         c2["full"] = rng.random() < 0.25
         if not kinds:
             kinds.append("repeat")
@@ -727,6 +881,10 @@ def pinned_history(part: int, i: int) -> dict[str, Any]:
     c1 = pinned_case(3, 0)
     c2 = pinned_case(3, 0)
     c1["full"] = part % 2 == 1
+    if part % 4 == 2:  # the first two session changes of the chain need the OEM hook; the second scan runs with or without hooks
+        for c in (c1, c2):
+            c["hooked"], c["with_hooks"] = [[1, 2], [2, 3]], True
+        c2["with_hooks"] = i == 0
     if (part + i) % 2 == 0:
         c2["depth"] = 1
         kinds = ["smaller-depth"]
@@ -831,7 +989,7 @@ def run(ctx: Any, params: dict[str, Any]) -> None:
         hist = pinned_history(params["part"], i) if i < 2 else gen_history(rng, ctx.tier)
         check_history(ctx, hist)
         if i % 4 == 0:
-            ctx.sample({"db_history": [{k: c[k] for k in ("edges", "guarded", "depth", "skip_expr", "thorough", "full")} for c in hist["scans"]], "kinds": hist["kinds"]})
+            ctx.sample({"db_history": [{k: c[k] for k in ("edges", "guarded", "hooked", "with_hooks", "depth", "skip_expr", "thorough", "full")} for c in hist["scans"]], "kinds": hist["kinds"]})
     for i in range(params["n"]):
         if ctx.out_of_time():
             break
@@ -840,7 +998,7 @@ def run(ctx: Any, params: dict[str, Any]) -> None:
             case = pinned_case(i + 1, params["part"])
         check_case(ctx, case)
         if i % 40 == 0:
-            ctx.sample({k: case[k] for k in ("edges", "guarded", "depth", "skip_expr", "thorough", "reset", "full")})
+            ctx.sample({k: case[k] for k in ("edges", "guarded", "hooked", "depth", "skip_expr", "thorough", "reset", "silent_reset", "max_retries", "with_hooks", "full")})
 
 
 def pinned_case(depth: int, part: int) -> dict[str, Any]:
@@ -854,9 +1012,18 @@ def pinned_case(depth: int, part: int) -> dict[str, Any]:
         edges.setdefault(a, set()).add(b)
     for s in list(edges):
         edges[s].add(1)
-    return {"edges": {str(k): sorted(v) for k, v in sorted(edges.items())}, "guarded": [], "depth": depth, "skip": [], "skip_expr": [],
+    case = {"edges": {str(k): sorted(v) for k, v in sorted(edges.items())}, "guarded": [], "depth": depth, "skip": [], "skip_expr": [],
             "thorough": part % 4 == 1 and depth <= 4, "reset": 1 if part % 4 == 2 else None, "ecu_reset": True, "with_hooks": False, "sleep": 0,
-            "full": part % 4 == 3, "feats": ["pinned"]}
+            "full": part % 4 == 3, "feats": ["pinned"], "hooked": [], "silent_reset": None, "max_retries": 3}
+    v = part % 16
+    if v in (6, 10, 14):  # the ECU carries out every reset (6, 10) / every reset outside the default session (14) without answering
+        case["silent_reset"] = {"where": "non-default" if v == 14 else "always", "p": 1.0, "seed": 0}
+        case["max_retries"] = 3 if v == 10 else 0
+    elif v in (4, 12):  # transitions armed by the OEM hook, scanned with hooks
+        case["hooked"], case["with_hooks"] = ([[1, 2], [2, 3]] if v == 4 else [[2, 3], [2, 60]]), True
+    elif v == 8:  # ... and without: 3 is identified only, the chain ends at 2
+        case["hooked"] = [[2, 3]]
+    return case
 
 
 def replay(ctx: Any, witness: dict[str, Any]) -> None:
@@ -865,8 +1032,8 @@ def replay(ctx: Any, witness: dict[str, Any]) -> None:
 
     em.capture_logging()
     if witness.get("history"):
-        check_history(ctx, {"scans": [{**{k: c[k] for k in CASE_KEYS}, "feats": []} for c in witness["history"]], "kinds": []})
+        check_history(ctx, {"scans": [{**{k: c.get(k, CASE_DEFAULTS.get(k)) for k in CASE_KEYS}, "feats": []} for c in witness["history"]], "kinds": []})
         return
-    case = {k: witness[k] for k in CASE_KEYS}
+    case = {k: witness.get(k, CASE_DEFAULTS.get(k)) for k in CASE_KEYS}
     case["feats"] = []
     check_case(ctx, case)
